@@ -118,7 +118,7 @@ def observe(world, top, sched_v, clustering):
     obs["codebasin_rc"] = c["rc"]
     obs["codebasin_head"], obs["dup_groups_listed"] = split_codebasin(c["out"])
     obs["dup_groups"] = sorted(sorted(g) for g in obs["dup_groups_listed"])
-    for name, extra in (("tree", []), ("tree_prune", ["--prune"])):
+    for name, extra in (("tree", []), ("tree_prune", ["--prune"]), ("tree_L2", ["-L", "2"])):
         t = runners.run_fresh("cli_run", {"top": top, "cwd": root, "module": "codebasin.tree", "argv": extra + [af],
                                           "scandir_key": None if native else key}, hashseed=hs)
         obs[name] = t["out"]
@@ -169,7 +169,7 @@ def compare(base, var):
     if base["dup_groups_listed"] != var["dup_groups_listed"]:
         return "duplicates_listing_order_depends_on_schedule", {"baseline": base["dup_groups_listed"],
                                                                 "variant": var["dup_groups_listed"]}
-    for k in ("tree", "tree_prune"):
+    for k in ("tree", "tree_prune", "tree_L2"):
         if base.get(k + "_rc") != var.get(k + "_rc") or base.get(k) != var.get(k):
             return "cbi_tree_output_depends_on_schedule", {"which": k, "diff": _first_diff(base.get(k, ""), var.get(k, ""))}
     if base.get("cov_rc") != var.get("cov_rc") or base.get("coverage_json") != var.get("coverage_json"):
